@@ -120,6 +120,14 @@ func derivesFrom(v ssa.Value, target func(ssa.Value) bool) bool {
 			if arg, ok := paramBinding[x]; ok {
 				return walk(arg, d+1)
 			}
+			// opt-in (derivesFromAnySite): a shared helper with a few static call sites — the argument of any of them
+			if deriveAnySite {
+				for _, arg := range paramSites[x] {
+					if walk(arg, d+1) {
+						return true
+					}
+				}
+			}
 		case *ssa.Call:
 			// the result of a repo function is what that function returns: follow the returned values, with the
 			// callee's parameters bound to this call's arguments (value flow through helpers)
@@ -250,6 +258,11 @@ func derivesFrom(v ssa.Value, target func(ssa.Value) bool) bool {
 				}
 			}
 			_ = inst
+		case *ssa.FreeVar:
+			// a captured variable: the cell it is bound to in the enclosing function
+			if cell := capturedCell(x); cell != nil {
+				return walk(cell, d+1)
+			}
 		case *ssa.Alloc:
 			// composite literal struct: values stored into its fields
 			if x.Referrers() != nil {
@@ -282,6 +295,21 @@ func derivesFrom(v ssa.Value, target func(ssa.Value) bool) bool {
 	return walk(v, 0)
 }
 
+// derivesFromAnySite is derivesFrom that also follows the parameters of shared helpers (2-4 static call sites, never used
+// as a value) to the arguments of every call site.
+func derivesFromAnySite(v ssa.Value, target func(ssa.Value) bool) bool {
+	old := deriveAnySite
+	deriveAnySite = true
+	defer func() { deriveAnySite = old }()
+	return derivesFrom(v, target)
+}
+
+var (
+	deriveAnySite   bool
+	paramSites      = map[*ssa.Parameter][]ssa.Value{}
+	paramSiteInstrs = map[*ssa.Parameter][]ssa.Instruction{}
+)
+
 func isValue(want ssa.Value) func(ssa.Value) bool {
 	return func(v ssa.Value) bool { return v == want }
 }
@@ -291,19 +319,51 @@ func isFieldLoad(v ssa.Value, f *types.Var) bool { return loadedField(v) == f }
 
 // baseOfFieldLoad returns the struct value whose field is loaded by v.
 func baseOfFieldLoad(v ssa.Value) ssa.Value {
-	switch x := v.(type) {
-	case *ssa.UnOp:
-		if fa, ok := x.X.(*ssa.FieldAddr); ok {
-			return fa.X
+	for i := 0; i < 8; i++ {
+		switch x := v.(type) {
+		case *ssa.UnOp:
+			if fa, ok := x.X.(*ssa.FieldAddr); ok {
+				return fa.X
+			}
+			return nil
+		case *ssa.Field:
+			return x.X
+		case *ssa.ChangeType:
+			v = x.X
+		case *ssa.MakeInterface:
+			v = x.X
+		case *ssa.FieldAddr:
+			return x.X
+		default:
+			return nil
 		}
-	case *ssa.Field:
-		return x.X
 	}
 	return nil
 }
 
 // localStructAlloc: v is a struct allocated in this function (directly, or loaded from the cell it was stored in).
 func localStructAlloc(v ssa.Value) *ssa.Alloc {
+	// see through the parameter of a single-call-site helper and through captured variables (so that a field load from
+	// `l`, where l is the struct literal built by the caller / the enclosing function, stays field-sensitive)
+	for i := 0; i < 6; i++ {
+		switch x := v.(type) {
+		case *ssa.Parameter:
+			if arg, ok := paramBinding[x]; ok {
+				v = arg
+				continue
+			}
+		case *ssa.UnOp:
+			if fv, ok := x.X.(*ssa.FreeVar); ok && x.Op == token.MUL {
+				if cell := capturedCell(fv); cell != nil {
+					if sv := soleStore(cell); sv != nil {
+						v = sv
+						continue
+					}
+				}
+			}
+		}
+		break
+	}
 	switch x := v.(type) {
 	case *ssa.Alloc:
 		if _, ok := x.Type().(*types.Pointer).Elem().Underlying().(*types.Struct); ok {
@@ -391,6 +451,29 @@ func allSources(v ssa.Value, pred func(ssa.Value) bool) bool {
 			return walk(x.X)
 		case *ssa.ChangeType:
 			return walk(x.X)
+		case *ssa.UnOp:
+			// a load of a local (or captured) cell: every value ever stored into it
+			if x.Op == token.MUL {
+				var cell ssa.Value
+				switch y := x.X.(type) {
+				case *ssa.Alloc:
+					cell = y
+				case *ssa.FreeVar:
+					cell = capturedCell(y)
+				}
+				if cell != nil && cell.Referrers() != nil {
+					n := 0
+					for _, ref := range *cell.Referrers() {
+						if st, ok := ref.(*ssa.Store); ok && st.Addr == cell {
+							n++
+							if !walk(st.Val) {
+								return false
+							}
+						}
+					}
+					return n > 0
+				}
+			}
 		}
 		return false
 	}
@@ -404,6 +487,23 @@ var paramBinding = map[*ssa.Parameter]ssa.Value{}
 func (c *Ctx) initParamBinding() {
 	g := c.CG()
 	for fn, sites := range g.callers {
+		if len(sites) >= 2 && len(sites) <= 4 && len(fn.Blocks) > 0 && fn.Parent() == nil && !c.usedAsValue(fn) {
+			ok := true
+			for _, s := range sites {
+				cc := callCommon(s.Instr)
+				if cc == nil || cc.StaticCallee() != fn || len(cc.Args) != len(fn.Params) {
+					ok = false
+				}
+			}
+			if ok {
+				for _, s := range sites {
+					for i, p := range fn.Params {
+						paramSites[p] = append(paramSites[p], callCommon(s.Instr).Args[i])
+						paramSiteInstrs[p] = append(paramSiteInstrs[p], s.Instr)
+					}
+				}
+			}
+		}
 		if len(sites) != 1 || len(fn.Blocks) == 0 || fn.Parent() != nil {
 			continue
 		}
@@ -453,4 +553,35 @@ func isRepoFn(f *ssa.Function) bool {
 		f = f.Parent()
 	}
 	return f.Pkg != nil && len(f.Pkg.Pkg.Path()) >= len(repoModule) && f.Pkg.Pkg.Path()[:len(repoModule)] == repoModule
+}
+
+var fnValueUses map[*ssa.Function]bool
+
+// usedAsValue: fn occurs as an operand other than the callee of a static call (stored, passed, bound) in a repo function.
+func (c *Ctx) usedAsValue(fn *ssa.Function) bool {
+	if fnValueUses == nil {
+		fnValueUses = map[*ssa.Function]bool{}
+		for _, f := range c.RepoFns {
+			eachInstr(f, func(r instrRef) {
+				var callee ssa.Value
+				if cc := callCommon(r.I); cc != nil && !cc.IsInvoke() {
+					callee = cc.Value
+				}
+				for _, op := range r.I.Operands(nil) {
+					if op == nil || *op == nil {
+						continue
+					}
+					if g, ok := (*op).(*ssa.Function); ok && (*op) != callee {
+						fnValueUses[g] = true
+					}
+					if mc, ok := (*op).(*ssa.MakeClosure); ok && ssa.Value(mc) != callee {
+						if g, ok := mc.Fn.(*ssa.Function); ok {
+							fnValueUses[g] = true
+						}
+					}
+				}
+			})
+		}
+	}
+	return fnValueUses[fn]
 }
